@@ -12,8 +12,11 @@ MODULES = ['Netpoll.Props.C12']
 MANIFEST = dict(
     text='Lean 4 theorems over the sequential post-close model of every Connection/Reader/Writer method (all buffer states, sizes and arguments): Writer calls and short reads return the close error '
          '(ErrConnClosed locally, an error matching ErrEOF and ErrConnClosed after a peer close), buffered bytes stay readable, nothing blocks or dereferences a recycled buffer, Close is idempotent. '
-         'The model is compared with the real code on the COMPLETE table of the property (close mode x callbacks x input x output x slot reuse x method x argument x repetition) on every run.',
-    note='Exhaustive correspondence for the table; the theorems generalise over buffer contents. Teardown exactly-once under concurrency is C05; slot isolation is C10. Methods with deadlines set are outside the table.',
+         'The model is compared with the real code on the COMPLETE table of the property (close mode x callbacks x input x output x slot reuse x method x argument x repetition) on every run; '
+         'the property oracle judges the implementation\'s own replies: after a peer close (then user close or not) of a connection without callbacks the bytes buffered BEFORE the close must still be reported by Len() and readable, '
+         'in every other cell "still buffered" is what the connection\'s own Len() reports after the close.',
+    note='Exhaustive correspondence for the table; the theorems generalise over buffer contents. Teardown exactly-once under concurrency is C05; slot isolation is C10. Methods with deadlines set are outside the table. '
+         'With a callback set the teardown recycles the input buffer also after a peer close (the table\'s variant sets OnConnect only): those cells are judged against the post-close Len().',
     technique='Lean 4 theorems over a post-close model + exhaustive cell-by-cell correspondence with the real connection', design='§6 C12')
 
 READERS = ('next', 'peek', 'skip', 'rstr', 'rbin', 'rbyte', 'slice', 'read', 'until')
